@@ -23,6 +23,7 @@ type storeDesc struct {
 	viaParam *ssa.Parameter
 	path     []fieldStep // fields followed (by load) from the root value to the pointer/slice used
 	resliced bool        // the slice was re-sliced on the way (may reach up to cap)
+	fresh    bool        // the written memory was allocated by the same function (make/new/append)
 }
 
 type fieldStep struct {
@@ -219,10 +220,11 @@ func (w *World) scanCall(call *ssa.CallCommon, ms *modSet, seen map[*ssa.Functio
 			continue
 		}
 		if s.rtype != nil {
-			ms.stores = append(ms.stores, storeDesc{unknown: true, elem: s.elem, rtype: s.rtype})
+			fresh := s.fresh || (s.viaCell != nil && len(s.path) == 0 && cellHoldsOnlyFresh(s.viaCell))
+			ms.stores = append(ms.stores, storeDesc{unknown: true, elem: s.elem, rtype: s.rtype, fresh: fresh})
 			if !s.elem {
 				// a pointer parameter may point into a slice element
-				ms.stores = append(ms.stores, storeDesc{unknown: true, elem: true, rtype: s.rtype})
+				ms.stores = append(ms.stores, storeDesc{unknown: true, elem: true, rtype: s.rtype, fresh: fresh})
 			}
 		}
 	}
@@ -232,20 +234,55 @@ func (w *World) scanCall(call *ssa.CallCommon, ms *modSet, seen map[*ssa.Functio
 	ms.opaqueTs = append(ms.opaqueTs, sub.opaqueTs...)
 }
 
+// cellHoldsOnlyFresh: every value ever stored into the local variable is a
+// fresh allocation of the same function.
+func cellHoldsOnlyFresh(a *ssa.Alloc) bool {
+	refs := a.Referrers()
+	if refs == nil {
+		return false
+	}
+	n := 0
+	for _, r := range *refs {
+		st, ok := r.(*ssa.Store)
+		if !ok || st.Addr != ssa.Value(a) {
+			continue
+		}
+		n++
+		switch v := st.Val.(type) {
+		case *ssa.MakeSlice:
+		case *ssa.Alloc:
+			if !v.Heap {
+				return false
+			}
+		case *ssa.Slice:
+			if al, ok := v.X.(*ssa.Alloc); !ok || !al.Heap {
+				return false
+			}
+		default:
+			return false
+		}
+	}
+	return n > 0
+}
+
 // ---- loops with invariants ----
 
 func (c *Ctx) localLookup(fr *frame, st *State, before token.Pos) func(string) *Val {
 	return func(name string) *Val {
 		var best *ssa.Alloc
+		bestID := -1
 		for _, l := range fr.fn.Locals {
 			if l.Comment != name {
 				continue
 			}
-			if _, ok := st.regs[l]; !ok {
+			pv, ok := st.regs[l]
+			if !ok || pv.Ptr == nil || pv.Ptr.Cell == nil {
 				continue
 			}
-			if best == nil || (l.Pos() > best.Pos() && (!before.IsValid() || l.Pos() <= before)) {
-				best = l
+			// several variables may share a name (shadowing, one hidden
+			// index per range loop): the most recently created one is meant
+			if pv.Ptr.Cell.id > bestID {
+				best, bestID = l, pv.Ptr.Cell.id
 			}
 		}
 		if best == nil {
@@ -379,12 +416,21 @@ func (c *Ctx) havocLoop(fr *frame, l *loopInfo, st *State) {
 	}
 	var regions []region
 	whole := map[HKey]bool{}
+	freshOnly := map[HKey]bool{}
+	curFresh := false
 	wholeClass := func(elem bool, t types.Type) {
 		for j := range leafSorts(t) {
-			whole[HKey{Elem: elem, T: typeKey(t), Leaf: j}] = true
+			k := HKey{Elem: elem, T: typeKey(t), Leaf: j}
+			if _, seen := whole[k]; !seen {
+				freshOnly[k] = curFresh
+			} else if !curFresh {
+				freshOnly[k] = false
+			}
+			whole[k] = true
 		}
 	}
 	for _, s := range ms.stores {
+		curFresh = s.fresh
 		switch {
 		case s.cell != nil:
 		case s.global != nil:
@@ -438,12 +484,25 @@ func (c *Ctx) havocLoop(fr *frame, l *loopInfo, st *State) {
 		}
 		c.W.havocMutableGlobals(c, st)
 	}
+	if ms.opaque {
+		for k := range freshOnly {
+			freshOnly[k] = false
+		}
+	}
 	for k := range whole {
 		s := leafSortForKey(k)
 		if s == nil {
 			continue
 		}
-		st.heap[k] = Fresh("loop."+k.String(), s)
+		nh := Fresh("loop."+k.String(), s)
+		if freshOnly[k] {
+			// only memory allocated inside the loop is written: everything
+			// that existed at loop entry keeps its contents
+			old := c.heapGet(st, k, s)
+			r := BoundVar("r", RefSort)
+			c.assume(st.pc, Forall([]*Term{r}, Implies(ULt(r, st.clk), Eq(Select(nh, r), Select(old, r))), []*Term{Select(nh, r)}))
+		}
+		st.heap[k] = nh
 	}
 	for _, r := range regions {
 		ss := leafSorts(r.rtype)
@@ -593,6 +652,17 @@ func (c *Ctx) applyContract(st *State, fc *FuncContract, fn *ssa.Function, args 
 	for _, m := range fc.Modifies {
 		c.havocTarget(st, env, m)
 	}
+	if (fc.Trusted && !fc.HasMod) || fc.ModAny || (len(fc.AbstractCallees) > 0 && !fc.HasMod) {
+		// an assumed contract without a frame: everything reachable from
+		// the arguments may change
+		seen := map[string]bool{}
+		for _, a := range args {
+			if a != nil && a != poison {
+				c.havocReachable(st, a.Typ, seen, 0)
+			}
+		}
+		c.W.havocMutableGlobals(c, st)
+	}
 	nclk := Fresh("clk", RefSort)
 	c.assume(st.pc, ULe(st.clk, nclk))
 	st.clk = nclk
@@ -635,6 +705,21 @@ func (c *Ctx) evalTarget(env *Env, m *Clause) (mt modTarget) {
 	x := m.E
 	for x.Kind == "paren" {
 		x = x.X
+	}
+	if x.Kind == "un" && x.Op == "*" {
+		// the object a pointer expression points to
+		v := env.eval(x.X)
+		p, ok := v.Typ.Underlying().(*types.Pointer)
+		if !ok || v.Ptr == nil {
+			specErr("modifies *e: e is not a pointer")
+		}
+		if v.Ptr.Cell != nil {
+			return modTarget{cell: v.Ptr.Cell}
+		}
+		if !v.Ptr.isRoot() {
+			specErr("modifies: interior pointer")
+		}
+		return modTarget{obj: v.leaves()[0], otype: p.Elem(), lo: 0, hi: len(leafSorts(p.Elem()))}
 	}
 	if x.Kind == "slice" || x.Kind == "ident" {
 		v := env.eval(x)
@@ -892,6 +977,26 @@ func (w *World) verifyFunction(fc *FuncContract) (res *FnResult) {
 	post := c.contractEnv(fn, out, args)
 	post.old = entry
 	post.oldEnv = env
+	// local variables of the function are visible in postconditions (their
+	// final values), after parameters and results
+	{
+		saveRegs := out.regs
+		allRegs := map[ssa.Value]*Val{}
+		for _, r := range live {
+			for k, v := range r.st.regs {
+				if _, isAlloc := k.(*ssa.Alloc); isAlloc {
+					if o, ok := allRegs[k]; !ok || sameVal(o, v) {
+						allRegs[k] = v
+					}
+				}
+			}
+		}
+		for k, v := range saveRegs {
+			allRegs[k] = v
+		}
+		out.regs = allRegs
+		post.lookup = c.localLookup(fr, out, token.NoPos)
+	}
 	var rv *Val
 	switch nres {
 	case 0:
@@ -905,9 +1010,12 @@ func (w *World) verifyFunction(fc *FuncContract) (res *FnResult) {
 	}
 	for _, en := range fc.Ensures {
 		cond := c.evalClause(post, en)
-		c.oblige(out, "ensures", en.Text, fn.Pos(), cond)
+		c.obligeCase(out, "ensures", en.Text, True, cond)
 	}
-	if fc.hasSpec() {
+	for _, rc := range fc.Resets {
+		c.checkReset(post, out, rc)
+	}
+	if fc.hasSpec() && !fc.ModAny && len(fc.AbstractCallees) == 0 {
 		c.frameCheck(fc, fn, env, out)
 	}
 	return
@@ -943,7 +1051,7 @@ func (c *Ctx) frameCheck(fc *FuncContract, fn *ssa.Function, env *Env, out *Stat
 				}
 			}
 			goal := Forall([]*Term{r}, Implies(And(pre...), Eq(Select(hout, r), Select(hin, r))))
-			c.oblige(out, "frame", k.String(), fn.Pos(), goal)
+			c.obligeCase(out, "frame", k.String(), True, goal)
 		} else {
 			i := BoundVar("i", BV(64))
 			for _, t := range targets {
@@ -953,7 +1061,7 @@ func (c *Ctx) frameCheck(fc *FuncContract, fn *ssa.Function, env *Env, out *Stat
 				}
 			}
 			goal := Forall([]*Term{r, i}, Implies(And(pre...), Eq(Select(Select(hout, r), i), Select(Select(hin, r), i))))
-			c.oblige(out, "frame", k.String(), fn.Pos(), goal)
+			c.obligeCase(out, "frame", k.String(), True, goal)
 		}
 	}
 }
@@ -1029,4 +1137,104 @@ func (w *World) verifyLemma(lm *Lemma) (res *FnResult) {
 		}
 	}
 	return
+}
+
+// checkReset: field-by-field reset contract of a pooled object.
+func (c *Ctx) checkReset(post *Env, out *State, rc *ResetClause) {
+	defer func() {
+		if r := recover(); r != nil {
+			if er, ok := r.(error); ok {
+				panic(fmt.Errorf("%s:%d: %v", shortFile(rc.File), rc.Line, er))
+			}
+			panic(r)
+		}
+	}()
+	pv := post.eval(rc.Target.E)
+	pt, ok := pv.Typ.Underlying().(*types.Pointer)
+	if !ok || pv.Ptr == nil {
+		specErr("resets: target is not a pointer")
+	}
+	stt, ok := pt.Elem().Underlying().(*types.Struct)
+	if !ok {
+		specErr("resets: target does not point to a struct")
+	}
+	listed := map[string]bool{}
+	for _, f := range rc.Zero {
+		listed[f] = true
+	}
+	for _, f := range rc.Scratch {
+		listed[f] = true
+	}
+	// coverage: every field of the struct is classified
+	var missing []string
+	for i := 0; i < stt.NumFields(); i++ {
+		if !listed[stt.Field(i).Name()] {
+			missing = append(missing, stt.Field(i).Name())
+		}
+	}
+	cov := True
+	if len(missing) > 0 {
+		cov = False
+	}
+	c.obligeCase1(out, "reset", "coverage("+rc.Target.Text+"):"+strings.Join(missing, ","), True, cov)
+	nonNil := Neq(pv.leaves()[0], Const(32, 0))
+	for _, f := range rc.Zero {
+		path, ft := findField(stt, f)
+		if path == nil {
+			c.obligeCase1(out, "reset", "zero("+rc.Target.Text+"."+f+"):no-such-field", True, False)
+			continue
+		}
+		lo, hi := fieldRange(stt, path[0])
+		a := *pv.Ptr
+		a.Lo, a.Hi = pv.Ptr.Lo+lo, pv.Ptr.Lo+hi
+		a.Typ = ft
+		cur := c.loadAddrQuiet(out, &a)
+		z := zeroVal(ft)
+		c.obligeCase(out, "reset", "zero("+rc.Target.Text+"."+f+")", nonNil, eqTyped(ft, cur.leaves(), z.leaves()))
+	}
+}
+
+// eqTyped compares two flattened values of Go type t; fixed-size arrays are
+// compared on their N elements only (the SMT arrays are total).
+func eqTyped(t types.Type, a, b []*Term) *Term {
+	switch u := t.Underlying().(type) {
+	case *types.Array:
+		n := u.Len()
+		var cs []*Term
+		if n <= 64 {
+			for i := int64(0); i < n; i++ {
+				ix := Const(64, uint64(i))
+				ea := make([]*Term, len(a))
+				eb := make([]*Term, len(b))
+				for j := range a {
+					ea[j] = Select(a[j], ix)
+					eb[j] = Select(b[j], ix)
+				}
+				cs = append(cs, eqTyped(u.Elem(), ea, eb))
+			}
+			return And(cs...)
+		}
+		i := BoundVar("i", BV(64))
+		ea := make([]*Term, len(a))
+		eb := make([]*Term, len(b))
+		for j := range a {
+			ea[j] = Select(a[j], i)
+			eb[j] = Select(b[j], i)
+		}
+		return Forall([]*Term{i}, Implies(ULt(i, Const(64, uint64(n))), eqTyped(u.Elem(), ea, eb)))
+	case *types.Struct:
+		var cs []*Term
+		lo := 0
+		for i := 0; i < u.NumFields(); i++ {
+			n := len(leafSorts(u.Field(i).Type()))
+			cs = append(cs, eqTyped(u.Field(i).Type(), a[lo:lo+n], b[lo:lo+n]))
+			lo += n
+		}
+		return And(cs...)
+	}
+	cs := make([]*Term, len(a))
+	for i := range a {
+		cs[i] = Eq(a[i], b[i])
+	}
+	return And(cs...)
 }
